@@ -21,6 +21,23 @@ pub open spec fn op_of(info: StoreInfo) -> StoreOp {
 }
 pub open spec fn ops_of(infos: Seq<StoreInfo>) -> Seq<StoreOp> { infos.map_values(|i: StoreInfo| op_of(i)) }
 
+/// the backend reads a batch of instructions issues, in order
+pub open spec fn reads_of(ins: Seq<StoreInfoInstruction>) -> Seq<(Store, int)> { ins.map_values(|i: StoreInfoInstruction| (i.store, i.index as int)) }
+/// `b` extends `a` by reads of the tree store only
+pub open spec fn tree_reads_only(a: Seq<(Store, int)>, b: Seq<(Store, int)>) -> bool {
+    a.len() <= b.len() && b.subrange(0, a.len() as int) == a && forall|k: int| a.len() <= k < b.len() ==> (#[trigger] b[k]).0 == Store::Tree
+}
+pub proof fn lemma_tree_reads_refl(a: Seq<(Store, int)>) ensures tree_reads_only(a, a) { assert(a.subrange(0, a.len() as int) =~= a); }
+pub proof fn lemma_tree_reads_ext(a: Seq<(Store, int)>, b: Seq<(Store, int)>, ins: Seq<StoreInfoInstruction>)
+    requires tree_reads_only(a, b), forall|k: int| 0 <= k < ins.len() ==> (#[trigger] ins[k]).store == Store::Tree
+    ensures tree_reads_only(a, b + reads_of(ins))
+{
+    let c = b + reads_of(ins);
+    assert(c.subrange(0, a.len() as int) =~= b.subrange(0, a.len() as int));
+    assert forall|k: int| a.len() <= k < c.len() implies (#[trigger] c[k]).0 == Store::Tree by {
+        if k >= b.len() { assert(c[k] == reads_of(ins)[k - b.len()]); assert(ins[k - b.len()].store == Store::Tree); }
+    }
+}
 impl Storage {
     #[verifier::external_body]
     pub fn flush_infos(&mut self, infos: &[StoreInfo]) -> (r: Result<(), HypercoreError>)
@@ -61,7 +78,8 @@ impl Storage {
         ensures
             final(self).journal@ == old(self).journal@,
             r is Ok ==> !final(self).failed@ && r->Ok_0@.len() == info_instructions@.len()
-                && (forall|i: int| 0 <= i < r->Ok_0@.len() ==> read_result_ok(info_instructions@[i], #[trigger] r->Ok_0@[i])),
+                && (forall|i: int| 0 <= i < r->Ok_0@.len() ==> read_result_ok(info_instructions@[i], #[trigger] r->Ok_0@[i]))
+                && final(self).reads@ == old(self).reads@ + reads_of(info_instructions@),
             r is Err ==> final(self).failed@
     { unimplemented!() }
 
@@ -72,7 +90,8 @@ impl Storage {
         ensures
             final(self).journal@ == old(self).journal@,
             r is Ok ==> !final(self).failed@ && r->Ok_0@.len() == info_instructions@.len()
-                && (forall|i: int| 0 <= i < r->Ok_0@.len() ==> read_result_ok(info_instructions@[i], #[trigger] r->Ok_0@[i])),
+                && (forall|i: int| 0 <= i < r->Ok_0@.len() ==> read_result_ok(info_instructions@[i], #[trigger] r->Ok_0@[i]))
+                && final(self).reads@ == old(self).reads@ + reads_of(info_instructions@),
             r is Err ==> final(self).failed@
     { unimplemented!() }
 }
